@@ -74,6 +74,17 @@ def runInd (name ns fs streams : String) (withSpec : Bool := true) : String :=
       s!"ok idle={e.idle} arity={e.arity} offs={offs} needs={needs} starts={starts} | {showStreams outs} | {specS}"
   | _, _, _ => "ERR parse"
 
+/-- the same registry entry evaluated at the integer element type (truncating division) -/
+def runIndZ (name ns streams : String) : String :=
+  match parseNats ns, (if streams == "_" then some [] else (streams.splitOn ";").mapM parseInts) with
+  | some ns, some env =>
+    match lookup (α := Int) name ns [] with
+    | none => "ERR unknown-indicator"
+    | some e =>
+      let outs := e.outs.map (Sig.evalL env)
+      "ok idle=" ++ toString e.idle ++ " | " ++ ";".intercalate (outs.map (fun l => if l.isEmpty then "-" else ",".intercalate (l.map toString)))
+  | _, _ => "ERR parse"
+
 /-! ### HELPER (C16): integer element type, exact -/
 def intCmpBeq (a b : Int) : Bool := a == b
 
@@ -394,6 +405,7 @@ def handle (line : String) : String :=
   match (line.trimAscii.toString).splitOn " " with
   | [id, "IND", name, ns, fs, streams] => id ++ " " ++ runInd name ns fs streams
   | [id, "INDM", name, ns, fs, streams] => id ++ " " ++ runInd name ns fs streams false
+  | [id, "INDZ", name, ns, streams] => id ++ " " ++ runIndZ name ns streams
   | [id, "STRAT", name, ns, fs, streams] => id ++ " " ++ runStrat name ns fs streams
   | [id, "TREE", prog, words, closings] => id ++ " " ++ runTree prog words closings
   | [id, "REPO", impl, ops] => id ++ " " ++ runRepo impl ops
